@@ -29,7 +29,7 @@ LEVEL_NOTE = ("Trusts the harness B matrix and the table of proper point group o
               "matrix for every orbit member' is not decided there (only membership). find_uniq_hkls is documented for |h| < 1000; the pinned "
               "ranking (h*1000+k)*1000+l was one-to-one only below 500 (ties for hexagonal/trigonal at |l| = 500), repaired in "
               "/repo, and the whole documented range is part of the workload. "
-              "point_by_point.idxpoint (needs a full indexing run) is not driven.")
+              "point_by_point.idxpoint is driven on simulated on-axis voxels of four lattice systems (one and two grains).")
 
 RULE = ("group part: one case per (group, element pair); reduction part: a case = (group, cell, rotation); non-trivial = group of "
         "order >= 2 and a rotation without trace ties; distinct = (group, rounded cell, rounded rotation)")
@@ -523,6 +523,78 @@ def consumers(run, sym_u, name, ops, seed, idx):
               % (len(got), [n for _, n in got], len(want), [n for _, n in want]))
 
 
+def pbp_voxel(run, sym_u, name, ops, seed, idx):
+    """point_by_point.idxpoint - the consumer that makes map voxels comparable: every orientation it returns for a voxel must be
+    the canonical member of its orbit (a fixed point of find_uniq_u), whether the indexer found one candidate orientation
+    at the voxel or several.  Grains are simulated on the rotation axis with the package's own inverse geometry
+    (uncompute_g_vectors), so every peak is seen from voxel (0, 0)."""
+    import contextlib, io
+    import ImageD11.indexing
+    from ImageD11 import unitcell, transform, parameters
+    from ImageD11.sinograms import point_by_point as pbp
+    r = rng(seed, "C16", "pbp", name, idx)
+    a = float(r.uniform(3.5, 5.0))
+    cell = {"cubic": [a, a, a, 90, 90, 90], "tetragonal": [a, a, a * 1.31, 90, 90, 90],
+            "orthorhombic": [a, a * 1.17, a * 1.39, 90, 90, 90], "hexagonal": [a, a, a * 1.6, 90, 90, 120]}[name]
+    wvln = 0.3
+    uc = unitcell.unitcell(cell, "P")
+    dsmax = 1.1 * 4.0 / a
+    uc.makerings(dsmax)
+    grp = sym_u.getgroup(name)()
+    ngr = 1 + idx % 2
+    desc = dict(group=name, index=idx, kind="pbp-voxel", cell=cell, grains=ngr)
+    run.case(("pbp-voxel", name, idx), nontrivial=True)
+    hk = np.array([(h, k, l) for h in range(-6, 7) for k in range(-6, 7) for l in range(-6, 7) if (h, k, l) != (0, 0, 0)], float).T
+    cols, Us = [], []
+    for g in range(ngr):
+        U = xtal.random_rotation(r, "haar")
+        Us.append(U)
+        gv = (U @ uc.B) @ hk
+        gv = gv[:, np.sqrt((gv * gv).sum(axis=0)) < dsmax]
+        with np.errstate(invalid="ignore"):
+            tth, (e1, e2), (o1, o2) = transform.uncompute_g_vectors(gv, wvln)
+        tth, eta, om = np.concatenate((tth, tth)), np.concatenate((e1, e2)), np.concatenate((o1, o2))
+        okp = np.isfinite(om) & np.isfinite(eta) & (np.abs(np.sin(np.radians(eta))) > 0.05)
+        if g == 1:
+            okp &= r.random(len(okp)) < 0.8          # the second grain is weaker
+        rt, re = np.radians(tth[okp]), np.radians(eta[okp])
+        cols.append((1e5 * np.array((np.cos(rt), -np.sin(rt) * np.sin(re), np.sin(rt) * np.cos(re))), om[okp], eta[okp]))
+    xyz = np.concatenate([c[0] for c in cols], axis=1)
+    om = np.concatenate([c[1] for c in cols])
+    eta = np.concatenate([c[2] for c in cols])
+    npk1 = cols[0][0].shape[1]
+    saved = (getattr(pbp, "parglobal", None), getattr(pbp, "ucglobal", None), getattr(pbp, "symglobal", None),
+             ImageD11.indexing.loglevel)
+    pbp.parglobal = parameters.parameters(wavelength=wvln, omegasign=1.0, wedge=0.0, chi=0.0, cell__a=cell[0], cell__b=cell[1],
+                                          cell__c=cell[2], cell_alpha=cell[3], cell_beta=cell[4], cell_gamma=cell[5],
+                                          cell_lattice_symmetry="P")
+    pbp.ucglobal, pbp.symglobal = uc, grp
+    ImageD11.indexing.loglevel = 10
+    try:
+        with contextlib.redirect_stdout(io.StringIO()):
+            res = pbp.idxpoint(0, 0, np.ones(len(om), bool), om, np.sin(np.radians(om)), np.cos(np.radians(om)),
+                               np.ones(len(om), int), xyz[0].copy(), xyz[1].copy(), xyz[2].copy(), eta, ystep=2.0, y0=0.0,
+                               ymin=-2.0, minpks=int(0.4 * npk1), hkl_tol=0.05, ds_tol=0.005,
+                               cosine_tol=np.cos(np.radians(90 - 0.1)), forgen=[0, 1], hmax=6, uniqcut=0.75)
+    except Exception as e:
+        run.count("pbp_voxels_indexer_raised")
+        run.extra.setdefault("pbp_voxels_indexer_raised", "%s: %s" % (type(e).__name__, str(e)[:200]))
+        return
+    finally:
+        pbp.parglobal, pbp.ucglobal, pbp.symglobal, ImageD11.indexing.loglevel = saved
+    ubis = [np.asarray(t[2], float) for t in res if t[0] > 0]
+    run.count("pbp_voxels_indexed")
+    run.count("pbp_voxels_returning_%s" % ("one_orientation" if len(ubis) == 1 else ("none" if not ubis else "several_orientations")))
+    scale = float(np.abs(np.linalg.inv(uc.B)).max())
+    for u in ubis:
+        run.count("pbp_orientations_checked")
+        red = np.asarray(sym_u.find_uniq_u(u, grp), float)
+        if np.abs(red - u).max() > 1e-9 * scale:
+            run.violation("idxpoint:not-canonical:" + name, "point_by_point.idxpoint returned an orientation (trace %.4f) that is "
+                          "not the canonical member of its orbit (find_uniq_u gives trace %.4f); the voxel had %d candidate "
+                          "orientation(s)" % (np.trace(u), np.trace(red), len(ubis)), desc)
+
+
 def check(run, replay=None):
     from ImageD11 import sym_u
     if not hasattr(sym_u, "getgroup"):
@@ -549,7 +621,7 @@ def check(run, replay=None):
     if replay is not None:
         cs = replay["case"]
         if "index" in cs:
-            fn = {"extra": reduction_extra, "consumers": consumers}.get(cs.get("kind"), reduction)
+            fn = {"extra": reduction_extra, "consumers": consumers, "pbp-voxel": pbp_voxel}.get(cs.get("kind"), reduction)
             fn(run, sym_u, cs["group"], allops[cs["group"]], replay["seed"], cs["index"])
         return
     # names that are not groups must be refused, the alias must be the same group
@@ -571,6 +643,9 @@ def check(run, replay=None):
         for idx in range(ncons):
             consumers(run, sym_u, name, allops[name], run.seed, idx)
         hkl_slice_sweep(run, sym_u, name, allops[name], run.seed, 100 if run.tier == "quick" else 249)
+    for name in ("cubic", "tetragonal", "orthorhombic", "hexagonal"):
+        for idx in range(4 if run.tier == "quick" else 40):
+            pbp_voxel(run, sym_u, name, allops[name], run.seed, idx)
     # the cached group objects must not have been changed by all that use
     for name in names:
         now = sym_u.getgroup(name)().group
@@ -587,6 +662,8 @@ def check(run, replay=None):
     run.require_counter("hkl_shapes_checked", 900)
     run.require_counter("hkl_slice_columns_checked", 1000000)
     run.require_counter("makeuniq_runs", 100)
+    run.require_counter("pbp_voxels_returning_one_orientation", 3)
+    run.require_counter("pbp_orientations_checked", 8)
     run.require_counter("uniq_grain_list_runs", 100)
     run.require_counter("getgroup_unknown_refused", 4)
     run.require_counter("groups_unchanged_after_use", 10)
